@@ -76,11 +76,11 @@ theorem tx_conserves {s s1 s' : St} {t : Tx} (hi : Inv s)
   have h3 : fsum (beginTx s) r = 0 := by simp [fsum, beginTx, sumLocks]
   have h4 : (beginTx s).minted r = 0 := rfl
   have h5 : (beginTx s).burned r = 0 := rfl
+  rw [h0, h2, h3, h4, h5, hb] at h1
   rw [hv r, hbn r, fr.minted]
-  unfold fsum at h1
   by_cases e : r = XRD
-  · simp [e] at h1 ⊢; simp [e] at h0 h2 h3 h4 h5; omega
-  · simp [e] at h1 ⊢; omega
+  · subst e; simp [fsum] at h1 ⊢; omega
+  · simp [fsum, e] at h1 ⊢; omega
 
 /-- **supply_tracks** (success path): the recorded supply of every resource that existed before the
 transaction and tracks its supply moves by exactly minted − burned; for any resource but XRD this
@@ -92,8 +92,9 @@ theorem supply_tracks {s s1 s' : St} {t : Tx} (hi : Inv s)
     s'.supply r - s.supply r = s'.minted r - s'.burned r := by
   have hx : r ≠ XRD := by
     intro e; subst e
-    have := hi.xrd info hres
-    rw [this] at ht; cases ht
+    obtain ⟨i0, h0, h1⟩ := hi.xrd
+    rw [hres] at h0; injection h0 with h0; subst h0
+    rw [h1] at ht; cases ht
   have g0 := good_beginTx hi
   have h1 := supply_tracks_ops g0 hr r info hres ht
   obtain ⟨g, _, _⟩ := runOps_good g0 hr
